@@ -15,15 +15,19 @@ RULE = ("(a) is_address_valid() compared with the reference predicate for all 65
         "truncated/oversized mesh payloads, random 0..32-byte strings, 1..3 frames per update(); "
         "update() must return normally within frames x (2 tx bounds + 10 ms) of virtual time, and "
         "frames shorter than a header or with an invalid origin/destination must leave the queue "
-        "and the air untouched. Non-trivial: the frame reached update(); distinct = (role, level, "
+        "and the air untouched; every frame the node transmits must be explained by a frame it "
+        "received in that update() (passed along, its NETWORK_ACK, or the protocol's answer to that "
+        "type) and the master's lease table may change only on address requests and releases. "
+        "Non-trivial: the frame reached update(); distinct = (role, level, "
         "type, length, destination class, origin class).")
 REQUIRED = {"predicate": 65537, "update_returns": 8000, "bounded_time": 8000,
-            "invalid_dropped": 1500}
+            "invalid_dropped": 1500, "transmissions_explained": 8000, "lease_table_explained": 1500}
 BUDGET = {"quick": 150, "thorough": 600}
 EXHAUSTIVE = {"quick": "validity predicate over all 65536 values + None",
               "thorough": "validity predicate over all 65536 values + None"}
 
-ROLES = ["router", "net", "meshnm_unconnected", "meshnm_connected", "master0", "master3", "master200"]
+ROLES = ["router", "net", "meshnm_unconnected", "meshnm_connected", "master0", "master3", "master200",
+         "masterfull"]
 ADDR_BY_LEVEL = {0: 0, 1: 0o3, 2: 0o23, 3: 0o423, 4: 0o1423}
 
 
@@ -112,10 +116,20 @@ def make_node(rig, role, level, seed):
             begin(ADDR_BY_LEVEL[max(1, level)])
     else:
         o = rig.driver(radio, cls=m["rf24_mesh"].RF24Mesh, node_id=0)
-        n = int(role[6:])
         rng = random.Random(seed)
         pool = [a for a in net_ref.all_addresses() if a and a != net_ref.DEFAULT_ADDR]
         rng.shuffle(pool)
+        if role == "masterfull":
+            # every slot below the master and below the origins the generator uses is leased:
+            # address requests cannot be served
+            full = [c for c in range(1, 6)]
+            for par in (0o2, 0o15, 0o5, 0o342, 0o1):
+                full += [par | (c << (3 * net_ref.level(par))) for c in range(1, 6)]
+            full = [a for a in dict.fromkeys(full) if a != net_ref.DEFAULT_ADDR]
+            pool = full + [a for a in pool if a not in full]
+            n = len(full) + 5
+        else:
+            n = int(role[6:])
         for i in range(n):
             o.set_address(1 + i, pool[i])
     return radio, o
@@ -179,6 +193,7 @@ def _frames(ctx, case, rig, radio, o):
             o.read()
         built = [build(fr, me, rng) for fr in burst]
         qlen0 = len(o.queue)
+        table0 = dict(getattr(o, "dhcp_dict", None) or {})
         air0 = len(rig.air.log)
         for (raw, _), fr in zip(built, burst):
             radio.inject_rx(fr.get("pipe", 1), raw)
@@ -239,6 +254,33 @@ def _frames(ctx, case, rig, radio, o):
                               "frame(s) %r with short/invalid header: queue %d->%d, packets on air %d"
                               % ([r.hex()[:24] for r, _ in built], qlen0, len(o.queue),
                                  len(sent_now)), dict(case, frames=burst, burst=len(burst)))
+                return
+        # ---- what the node transmits must be explained by what it received: the frame itself
+        # passed along, a NETWORK_ACK for it, or the protocol's answer to that very type (poll ->
+        # poll, lookup -> lookup, address request -> request passed to the master / response)
+        heads = [net_ref.unpack_header(raw) for raw, _ in built if len(raw) >= 8]
+        ctx.clause("transmissions_explained")
+        for p in rig.air.log[air0:]:
+            if p.kind != "data" or p.src is not radio or len(p.payload) < 8:
+                continue
+            ho = net_ref.unpack_header(p.payload)
+            if not any(hi["id"] == ho["id"] and (ho["type"] == hi["type"] or ho["type"] == net_ref.NETWORK_ACK
+                                                 or (hi["type"] == 195 and ho["type"] == 128))
+                       for hi in heads):
+                ctx.violation("unexplained-transmission/%s" % case["role"].rstrip("0123456789"),
+                              "%s (address %s) transmitted a type-%d frame from %s to %s (id %d) after "
+                              "receiving only %r" % (case["role"], oct(me), ho["type"], oct(ho["from"]),
+                                                     oct(ho["to"]), ho["id"], desc),
+                              dict(case, frames=frames[:i], burst=case["burst"]))
+                return
+        if table0 is not None and hasattr(o, "dhcp_dict"):
+            ctx.clause("lease_table_explained")
+            if dict(o.dhcp_dict) != table0 and not any(hi["type"] in (195, 197) for hi in heads):
+                diff = {k: (table0.get(k), o.dhcp_dict.get(k)) for k in set(table0) | set(o.dhcp_dict)
+                        if table0.get(k) != o.dhcp_dict.get(k)}
+                ctx.violation("lease-table-changed-by-unrelated-frame", "master's table changed %r after "
+                              "frame(s) %r (neither an address request nor a release)" % (diff, desc),
+                              dict(case, frames=frames[:i], burst=case["burst"]))
                 return
         for fr in burst:
             if "raw" in fr:
